@@ -10,9 +10,12 @@ GenC tie (C01 / C02 / C04) — the implementation-shaped Lean model of the gener
                  kind, decoded value and consumed size.  Domain: per type the zero value + random values -> `ser`;
                  `serbuf` with exact-size buffers of EVERY capacity 0..max+1 (types up to 40 bytes; a sample of
                  capacities above); `de` of every truncation 0..len of valid encodings, random byte strings, every
-                 length 0..max+1 of an all-ones string.  GenC with the oracle that never claims alignment
-                 (`orc=never`) must give the same answers (the refinement theorems say the result does not depend on
-                 the oracle).
+                 length 0..max+1 of an all-ones string.  GenC is asked with the option set of each target
+                 (`@any|@little[,asserts]`), with both plain renderings, and with the oracle that never claims
+                 alignment and assertions on (`orc=never,asserts`): all must give the same answers (the refinement
+                 theorems say the result depends on neither), and never `err:assert` / `err:prim-*`.  Requests whose
+                 object is larger than WORK_LIMIT bytes are left to the spec-level tie (the model's buffers are
+                 lists: quadratic on tens of thousands of elements); counted as genc:skipped-large.
   structural     the text of every generated `T_serialize_` / `T_deserialize_` is scanned for the helper each emitted
                  site uses (raw byte store, memmove, nunavutSetUxx/SetIxx/SetF*, nunavutCopyBits, loop, nested call,
                  header reserve / back-patch, padding; decode: masked byte read, nunavutGetU*/GetI*/GetF*,
@@ -35,6 +38,8 @@ from . import codec_targets as T
 from . import dsdlgen as G
 
 ALL_CAPS_UPTO = 40        # bytes: every capacity 0..max+1 below this size, a sample above
+WORK_LIMIT = 3000         # bytes: the model's buffers are lists (indexing is linear), so requests that touch more
+                          # than this many bytes are left to the spec-level tie of c01/c02 (counted as genc:skipped-large)
 MAX_DISAGREEMENTS = 60
 
 
@@ -136,6 +141,26 @@ def _caps(rng, mx):
     return sorted(pick)
 
 
+def _ser_size(gt, v):
+    """Encoded size of a value in bytes, None if the reference rejects it."""
+    try:
+        return len(R.ser(gt.expr, v))
+    except R.CodecError:
+        return None
+
+
+def _de_cheap(gt, b):
+    """A byte string whose decoded object is small (a 4-byte string can announce 65 535 elements)."""
+    if len(b) > WORK_LIMIT:
+        return False
+    try:
+        v, _ = R.de(gt.expr, b)
+    except R.CodecError:
+        return True                                  # rejected: the count / tag / header check comes before any loop
+    size = _ser_size(gt, v)
+    return size is not None and size <= WORK_LIMIT
+
+
 def build_requests(ctx, sess):
     rng = ctx.rng
     n_val = 6 if ctx.quick else 14
@@ -144,15 +169,28 @@ def build_requests(ctx, sess):
         mx = R.bounds(gt.expr)[1] // 8
         vals = E.value_cases(rng, gt, n_val, p_invalid=0.15)
         for i, v in enumerate(vals):
-            reqs.append(E.Req(gt, "ser", v))
+            size = _ser_size(gt, v)
+            cheap = (size if size is not None else mx) <= WORK_LIMIT
+            if cheap:
+                reqs.append(E.Req(gt, "ser", v))
+            else:
+                ctx.count("genc:skipped-large")
             if i < 2 or (i == 2 and not ctx.quick):
                 for cap in _caps(rng, mx):
-                    reqs.append(E.Req(gt, "serbuf", (v, cap)))
+                    if cheap or cap < mx:            # a too small buffer is refused up front: always cheap
+                        reqs.append(E.Req(gt, "serbuf", (v, cap)))
         for b in E.bytes_cases(rng, gt, 2 if ctx.quick else 5, 4 if ctx.quick else 10):
-            reqs.append(E.Req(gt, "de", b))
-        ones = bytes([0xFF]) * (mx + 1)
-        for n in (_caps(rng, mx) if mx <= ALL_CAPS_UPTO else [0, 1, mx - 1, mx, mx + 1]):
-            reqs.append(E.Req(gt, "de", ones[:n]))
+            if _de_cheap(gt, b):
+                reqs.append(E.Req(gt, "de", b))
+            else:
+                ctx.count("genc:skipped-large")
+        top = min(mx, WORK_LIMIT)
+        ones = bytes([0xFF]) * (top + 1)
+        for n in (_caps(rng, mx) if mx <= ALL_CAPS_UPTO else [0, 1, top - 1, top, top + 1]):
+            if _de_cheap(gt, ones[:n]):
+                reqs.append(E.Req(gt, "de", ones[:n]))
+            else:
+                ctx.count("genc:skipped-large")
     # distinct requests only
     seen, out = set(), []
     for r in reqs:
@@ -168,7 +206,7 @@ def build_requests(ctx, sess):
 # ------------------------------------------------------------------------------------------------------------
 
 def _opt_of(target):
-    return "@little" if target.endianness == "little" else "@any"
+    return ("@little" if target.endianness == "little" else "@any") + (",asserts" if target.asserts else "")
 
 
 def run_genc(ctx, drivers, sess=None):
@@ -194,12 +232,16 @@ def run_genc(ctx, drivers, sess=None):
     reqs = build_requests(ctx, sess)
     lines = [r.target_line() for r in reqs]
     mlines = [r.model_lines()[0] for r in reqs]
-    answers_c = {t.name: t.ask(lines) for t in ctargets}
-    opts = sorted({_opt_of(t) for t in ctargets} | {"@any", "@little"})
-    answers_g = {}
-    for o in opts:
-        answers_g[o] = genc.ask([f"{o},fill=165 {ml}" for ml in mlines], timeout=1800)
-        answers_g[o + ",orc=never"] = genc.ask([f"{o},orc=never {ml}" for ml in mlines], timeout=1800)
+    # option sets asked of GenC: the one of every target, both plain renderings, and the never-aligned oracle with
+    # assertions on; all asked concurrently (each is its own driver process)
+    variants = sorted({_opt_of(t) for t in ctargets} | {"@any", "@little"})
+    variants = [v + ",fill=165" for v in variants] + ["@any,asserts,orc=never", "@little,asserts,orc=never"]
+    import concurrent.futures
+    with concurrent.futures.ThreadPoolExecutor(max_workers=len(variants) + len(ctargets)) as ex:
+        fc = {t.name: ex.submit(t.ask, lines) for t in ctargets}
+        fg = {v: ex.submit(genc.ask, [f"{v} {ml}" for ml in mlines], 1800) for v in variants}
+        answers_c = {k: f.result() for k, f in fc.items()}
+        answers_g = {k.replace(",fill=165", ""): f.result() for k, f in fg.items()}
     answers_s = codec.ask(mlines, timeout=1800) if codec is not None else None
     for i, r in enumerate(reqs):
         e = r.gt.expr
@@ -208,7 +250,7 @@ def run_genc(ctx, drivers, sess=None):
         parsed_g = {}
         for o in answers_g:
             a = answers_g[o][i]
-            if a.startswith("err:prim-") or a.startswith("err:code") or a == "bad-op":
+            if a.startswith("err:prim-") or a.startswith("err:code") or a == "err:assert" or a == "bad-op":
                 disagree("genc-internal", {"type": r.gt.tstr, "op": r.op, "arg": r.text[:2000], "options": o}, a, "a C outcome")
             parsed_g[o] = E.parse_answer(r.op, e, a)
         # GenC does not depend on the oracle, nor (C03) on the endianness option
